@@ -83,10 +83,30 @@ def coq_project():
             raise RuntimeError('coq_makefile failed: ' + out)
 
 
-def forbidden_scan():
-    """the development declares no axioms and switches off no checks"""
+def dv_deps(vfiles):
+    """transitive closure of `From DV Require ... X.Y` / `Require Import DV.X.Y` dependencies of the given coq/ relative files"""
+    seen, todo = set(), list(vfiles)
+    while todo:
+        f = todo.pop()
+        if f in seen or not os.path.exists(os.path.join(COQ, f)):
+            continue
+        seen.add(f)
+        txt = open(os.path.join(COQ, f)).read()
+        txt = re.sub(r'\(\*.*?\*\)', '', txt, flags=re.S)
+        for m in re.finditer(r'From\s+DV\s+Require\s+(?:Import\s+|Export\s+)?(.*?)\.(?:\s|$)', txt, flags=re.S):
+            for mod in m.group(1).split():
+                todo.append(mod.replace('.', '/') + '.v')
+        for m in re.finditer(r'\bDV\.([A-Za-z0-9_]+)\.([A-Za-z0-9_]+)', txt):
+            todo.append('%s/%s.v' % (m.group(1), m.group(2)))
+    return sorted(seen)
+
+
+def forbidden_scan(files=None):
+    """the development declares no axioms and switches off no checks (files: coq/ relative paths; default = everything)"""
     bad = []
-    for f in coq_files():
+    for f in (files if files is not None else coq_files()):
+        if not os.path.exists(os.path.join(COQ, f)):
+            continue
         txt = open(os.path.join(COQ, f)).read()
         txt = re.sub(r'\(\*.*?\*\)', '', txt, flags=re.S)
         for m in re.finditer(FORBIDDEN, txt):
@@ -113,14 +133,15 @@ def coq_make(targets, timeout=900):
     cmd = ['timeout', str(timeout), 'make', '-k', '-j%d' % NCPU, 'COQC=timeout 600 coqc'] + list(targets)
     lockf = open(os.path.join(BUILD, 'coq.lock'), 'w')
     try:
-        fcntl.flock(lockf, fcntl.LOCK_EX)
-        coq_project()
+        with Lock('coqproject'):
+            coq_project()
         fcntl.flock(lockf, fcntl.LOCK_SH)
         rc, out = sh(cmd, timeout=timeout + 30, cwd=COQ)
         if rc != 0:
             fcntl.flock(lockf, fcntl.LOCK_UN)
             fcntl.flock(lockf, fcntl.LOCK_EX)
-            coq_project()
+            with Lock('coqproject'):
+                coq_project()
             rc, out2 = sh(cmd, timeout=timeout + 30, cwd=COQ)
             out = out2 if rc == 0 else out + '\n--- retry under exclusive lock ---\n' + out2
     finally:
@@ -293,10 +314,12 @@ class Ctx:
     def prove(self, props_file=None, tie_files=(), models=(), timeout=900):
         """build the property's theorem file; count obligations; capture Print Assumptions.  Returns True when all discharged."""
         props_file = props_file or 'Props/Properties_%s.v' % self.pid
-        bad = forbidden_scan()
+        files = [props_file] + list(tie_files)
+        closure = dv_deps(files + list(models))
+        self.cov['development_files_in_closure'] = len(closure)
+        bad = forbidden_scan(closure)
         if bad:
             self.broken.append('forbidden construct in development: ' + '; '.join(bad[:5]))
-        files = [props_file] + list(tie_files)
         names = []
         for f in files:
             if os.path.exists(os.path.join(COQ, f)):
